@@ -202,6 +202,9 @@ func (pse *PubSubEvent) UnmarshalXML(d *xml.Decoder, start xml.StartElement) err
 					return err
 				}
 				pse.EventElement = ee
+			} else if err = d.Skip(); err != nil {
+				// Unknown child: skipped entirely, so that none of its descendants is taken for our end tag.
+				return err
 			}
 		case xml.EndElement:
 			if tt == start.End() {
